@@ -345,9 +345,12 @@ def _ub_kind(msg):
 
 
 def _first_core_frame(lines, start):
-    """scan stack lines from start; return (func, file) of first frame in core sources, and the top frame"""
+    """scan stack lines from start; return ((func, file) naming the innermost and outermost frame in the
+    core sources as 'inner<outer'), and the top frame"""
     top = None
     i = start
+    inner = None
+    outer = None
     while i < len(lines):
         m = FRAME_RE.match(lines[i])
         if not m:
@@ -359,9 +362,14 @@ def _first_core_frame(lines, start):
         if top is None:
             top = (func, path)
         if CORE_PATH_RE.search(path):
-            return (func, os.path.basename(path)), top
+            if inner is None:
+                inner = (func, os.path.basename(path))
+            outer = func
         i += 1
-    return None, top
+    if inner is None:
+        return None, top
+    name = inner[0] if outer == inner[0] else "%s<%s" % (inner[0], outer)
+    return (name, inner[1]), top
 
 
 def sanitizer_findings(stderr):
@@ -389,8 +397,12 @@ def sanitizer_findings(stderr):
                 or "WARNING: ThreadSanitizer:" in ln:
             tool = "asan" if "AddressSanitizer" in ln else "lsan" if "LeakSanitizer" in ln else \
                 "msan" if "MemorySanitizer" in ln else "tsan"
-            mk = re.search(r"Sanitizer: ([A-Za-z0-9_-]+(?: [a-z-]+)?)", ln)
-            kind = mk.group(1).strip().replace(" ", "-") if mk else "?"
+            mk = re.search(r"Sanitizer: ([A-Za-z0-9_-]+)", ln)
+            kind = mk.group(1).strip() if mk else "?"
+            if kind == "data" and "data race" in ln:
+                kind = "data-race"
+            if kind == "attempting":
+                kind = "bad-free" if "free" in ln else "attempting"
             if tool == "lsan":
                 kind = "leak"
             rw = "-"
